@@ -15,6 +15,7 @@ import (
 	"fmt"
 	"math/big"
 	"net"
+	"os"
 	"path/filepath"
 	"strings"
 	"testing"
@@ -96,7 +97,8 @@ type world struct {
 	// v2
 	v2 *world4
 
-	sectorSeq uint64
+	sectorSeq  uint64
+	localAbort bool
 	cleanup   []func()
 }
 
@@ -116,10 +118,9 @@ func newNode(t *testing.T, w *world, v2 bool) {
 	// node of a finished history is torn down before the next one starts
 	w.node = testutil.NewHostNode(t, w.hostKey, network, genesis, log)
 	registry.VerifSetRecorderStore(w.node.Registry, w.node.Store)
-	extra := 5
-	if v2 {
-		extra = 20
-	}
+	// every block reward is one spendable output of the host wallet: enough of them for the
+	// collateral of several formations and renewals
+	extra := 30
 	testutil.MineAndSync(t, w.node, w.node.Wallet.Address(), int(network.MaturityDelay)+extra)
 
 	s := w.node.Settings.Settings()
@@ -222,6 +223,11 @@ func (w *world) revision(i int) crhp2.ContractRevision {
 	return crhp2.ContractRevision{Revision: cloneRev(c.Revision), Signatures: [2]types.TransactionSignature{sigs[0], sigs[1]}}
 }
 
+func (w *world) vrpOf(i int) types.Currency {
+	r := w.revision(i).Revision
+	return r.ValidRenterPayout()
+}
+
 func cloneRev(r types.FileContractRevision) types.FileContractRevision {
 	r.ValidProofOutputs = append([]types.SiacoinOutput(nil), r.ValidProofOutputs...)
 	r.MissedProofOutputs = append([]types.SiacoinOutput(nil), r.MissedProofOutputs...)
@@ -299,6 +305,13 @@ func (w *world) touchAcct(a int) {
 	}
 }
 
+// debugf writes a comment line into the trace when VH_X_DEBUG is set.
+func (w *world) debugf(format string, a ...any) {
+	if os.Getenv("VH_X_DEBUG") != "" {
+		fmt.Fprintf(os.Stderr, "#DBG "+format+"\n", a...)
+	}
+}
+
 func errClass(err error) string {
 	if err == nil {
 		return "ok"
@@ -306,8 +319,15 @@ func errClass(err error) string {
 	return "rej"
 }
 
-// overAmount applies the seeded over-payment to a cost: ov >= 0 adds, ov < 0 under-pays.
-func overAmount(cost types.Currency, ov string) types.Currency {
+// overAmount applies the seeded over-payment to a cost: ov >= 0 adds, ov < 0 under-pays, "all" =
+// everything the payer has left (`have`).
+func overAmount(cost types.Currency, ov string, have types.Currency) types.Currency {
+	if ov == "all" {
+		if have.Cmp(cost) < 0 {
+			return cost
+		}
+		return have
+	}
 	if strings.HasPrefix(ov, "-") {
 		d := cur(ov[1:])
 		if d.Cmp(cost) > 0 {
